@@ -1,9 +1,9 @@
 #!/bin/bash
 # C12: share-group acknowledgements are single, ordered and honoured.
-# Three parts, ONE evidence file (/verif/evidence/C12.json, written last by the aggregator):
-#   Q + Q2  in-package harness in pkg/kgo (hooks/inpkg/c12_kgo_test.go) -> $BUILD/c12_q.json
-#   N       engine-N test binary (checks/c12/c12_test.go); nrun writes evidence/C12.json
-#   agg     checks/c12/agg: re-reports N's numbers and violations and adds Q/Q2 through lib/ev
+# Two binaries, ONE evidence file (/verif/evidence/C12.json):
+#   Q + Q2  in-package harness in pkg/kgo (hooks/inpkg/c12_kgo_test.go) -> $C12Q_OUT
+#   N       engine-N test binary (checks/c12, scenarios in checks/c12/sscen); nrun writes
+#           the evidence after merging the Q summary (nrun.MergeSummary in Check.Extra)
 # Replay: checks/c12/run.sh --replay /verif/violations/C12/<file>.json
 set -u
 cd "$(dirname "$0")/../.."
@@ -11,7 +11,6 @@ cd "$(dirname "$0")/../.."
 fail() { echo "INFRA-ERROR: $*" >&2; exit 2; }
 inpkg_test pkg/kgo "$VERIF_ROOT/hooks/inpkg/c12_kgo_test.go" "$BUILD/c12_q.test" || fail "build of the in-package harness failed"
 go test -c -tags synctests,verif -o "$BUILD/c12.test" ./checks/c12 || fail "build of the engine-N binary failed"
-go build -o "$BUILD/c12_agg" ./checks/c12/agg || fail "build of the aggregator failed"
 if [ "${1:-}" = "--replay" ]; then
   art="$(readlink -f "$2")"
   if grep -q '"part": *"Q' "$art"; then
@@ -19,14 +18,9 @@ if [ "${1:-}" = "--replay" ]; then
   fi
   VERIF_REPLAY="$art" exec "$BUILD/c12.test" -test.run '^TestC12$' -test.timeout 0
 fi
-rm -f "$BUILD/c12_q.json" "$VERIF_ROOT/evidence/C12.json" "$VERIF_ROOT/violations/C12/$VERIF_TIER"-*.json
-echo "== C12 part Q/Q2 (range builder and ack path, in-package)"
-C12_OUT="$BUILD/c12_q.json" "$BUILD/c12_q.test" -test.run '^TestVerifC12$' -test.timeout 0
+export C12Q_OUT="$BUILD/c12_q.json"
+rm -f "$C12Q_OUT"
+"$BUILD/c12_q.test" -test.run '^TestVerifC12$' -test.timeout 0
 rc=$?
-[ $rc -eq 0 ] && [ -s "$BUILD/c12_q.json" ] || fail "in-package harness exited $rc"
-echo "== C12 part N (end to end)"
-"$BUILD/c12.test" -test.run '^TestC12$' -test.timeout 0 | sed -u 's/^/  N| /'
-rc=${PIPESTATUS[0]}
-[ $rc -le 1 ] && [ -s "$VERIF_ROOT/evidence/C12.json" ] || fail "engine-N binary exited $rc"
-echo "== C12 aggregate"
-exec "$BUILD/c12_agg" "$VERIF_ROOT/evidence/C12.json" "$BUILD/c12_q.json"
+[ $rc -eq 0 ] && [ -s "$C12Q_OUT" ] || fail "in-package harness exited $rc"
+exec "$BUILD/c12.test" -test.run '^TestC12$' -test.timeout 0
